@@ -138,12 +138,6 @@ Proof.
 Qed.
 
 (** * calls *)
-Lemma guard_block cc b body :
-  guard_stmt cc (SBlock b body) = forallb (guard_stmt cc) body.
-Proof.
-  cbn [guard_stmt]. induction body as [|x l IH]; [reflexivity|]. cbn [forallb]. rewrite IH. reflexivity.
-Qed.
-
 Lemma rejected_only_env c e : rejected c (only_env e) = rejected c no_kw.
 Proof. reflexivity. Qed.
 
@@ -156,93 +150,89 @@ Proof.
   destruct (rejected (cc_run cc) no_kw); [discriminate | reflexivity].
 Qed.
 
+(** the effective env of [_sudo] is the env option as the runner resolves it *)
+Lemma sudo_env_want cc e :
+  match e with Some ONone | None => cfg_run (cc_run cc) Env | Some x => x end
+  = want (cc_run cc) (only_env e) Env.
+Proof.
+  unfold want, given, only_env, cfg_run. cbn [kw].
+  destruct e as [[| | | | | |]|]; reflexivity.
+Qed.
+
 Lemma sudo_string cc u e prefixed :
-  sudo_env_given cc e = true ->
-  sudo_command (cc_prompt cc) (match u with Some x => x | None => cc_user cc end) e prefixed
+  sudo_command (cc_prompt cc) (match u with Some x => x | None => cc_user cc end)
+               (match e with Some ONone | None => cfg_run (cc_run cc) Env | Some x => x end)
+               prefixed
   = sudo_wrapped cc u e prefixed.
 Proof.
-  unfold sudo_env_given, sudo_command, sudo_wrapped, env_flags, user_flags.
-  intros G. f_equal. f_equal.
-  assert (E : forall d : env, match d with [] => ""%string | _ :: _ =>
-                 ("--preserve-env='" ++ join "," (map fst d) ++ "' ")%string end
-              = match map fst d with [] => ""%string | _ :: _ =>
-                 ("--preserve-env='" ++ join "," (map fst d) ++ "' ")%string end).
-  { intros [|x d]; reflexivity. }
-  unfold want, given, only_env, no_kw in *. cbn [kw] in *.
-  destruct e as [[| | | | d | |]|]; try reflexivity.
-  - destruct (cf (cc_run cc) Env) as [[| | | | [|x d] | |]|]; try reflexivity; try discriminate.
-    all: cbn [default] in *; reflexivity.
-  - destruct d as [|x d]; reflexivity.
-  - destruct (cf (cc_run cc) Env) as [[| | | | [|x d] | |]|]; try reflexivity; try discriminate.
-    all: cbn [default] in *; reflexivity.
+  rewrite sudo_env_want. unfold sudo_command, sudo_wrapped, env_flags, user_flags.
+  f_equal. f_equal.
+  destruct (want (cc_run cc) (only_env e) Env) as [| | | | [|x d] | |]; reflexivity.
 Qed.
 
 Lemma call_sudo cc fs cmd u e :
-  cfg_sane cc = true -> sudo_env_given cc e = true ->
+  cfg_sane cc = true ->
   start_ok (cc_run cc) (cc_parent cc) (sudo_wrapped cc u e (composed fs cmd)) (only_env e)
            (do_sudo cc (state_of fs) cmd u e) = true.
 Proof.
-  unfold cfg_sane. intros S G. unfold do_sudo. rewrite prefix_composed, (sudo_string cc u e _ G).
+  unfold cfg_sane. intros S. unfold do_sudo. rewrite prefix_composed, (sudo_string cc u e _).
   apply (started_ok (cc_run cc) (cc_parent cc) _ (only_env e)).
   rewrite rejected_only_env. destruct (rejected (cc_run cc) no_kw); [discriminate | reflexivity].
 Qed.
 
 (** * the model's calls are the composed ones *)
 Lemma exec_judge cc (S : cfg_sane cc = true) : forall s fs tail,
-  guard_stmt cc s = true ->
   judge_stmt cc fs s (snd (fst (exec cc s (state_of fs))) ++ tail)
   = (true, tail, snd (exec cc s (state_of fs))).
 Proof.
-  induction s as [c|c u e| |b body IH] using stmt_ind'; intros fs tail G.
+  induction s as [c|c u e| |b body IH] using stmt_ind'; intros fs tail.
   - cbn [exec judge_stmt fst snd app]. rewrite call_run by assumption. reflexivity.
-  - cbn [exec judge_stmt fst snd app]. cbn [guard_stmt] in G. rewrite call_sudo by assumption. reflexivity.
+  - cbn [exec judge_stmt fst snd app]. rewrite call_sudo by assumption. reflexivity.
   - reflexivity.
-  - rewrite guard_block in G. rewrite exec_block, judge_block, push_state.
+  - rewrite exec_block, judge_block, push_state.
     assert (L : forall l fs0 tail0,
-               Forall (fun s => forall fs tail, guard_stmt cc s = true ->
+               Forall (fun s => forall fs tail,
                          judge_stmt cc fs s (snd (fst (exec cc s (state_of fs))) ++ tail)
                          = (true, tail, snd (exec cc s (state_of fs)))) l ->
-               forallb (guard_stmt cc) l = true ->
                judge_list cc fs0 l (snd (fst (exec_list cc l (state_of fs0))) ++ tail0)
                = (true, tail0, snd (exec_list cc l (state_of fs0)))).
-    { induction l as [|x l IHl]; intros fs0 tail0 F GL; [reflexivity|].
-      inversion F as [|? ? Hx Hl]; subst. cbn [forallb] in GL. apply andb_true_iff in GL as [Gx GL].
+    { induction l as [|x l IHl]; intros fs0 tail0 F; [reflexivity|].
+      inversion F as [|? ? Hx Hl]; subst.
       cbn [exec_list judge_list].
       pose proof (stacks_restored cc x (state_of fs0)) as R.
       specialize (Hx fs0).
       destruct (exec cc x (state_of fs0)) as [[s' o] r]. cbn [fst snd] in R, Hx. subst s'.
       destruct r.
-      - cbn [fst snd]. rewrite (Hx tail0 Gx). reflexivity.
-      - specialize (IHl fs0 tail0 Hl GL).
+      - cbn [fst snd]. rewrite (Hx tail0). reflexivity.
+      - specialize (IHl fs0 tail0 Hl).
         destruct (exec_list cc l (state_of fs0)) as [[s'' o'] r']. cbn [fst snd] in *.
-        rewrite <- app_assoc, (Hx (o' ++ tail0) Gx), IHl. reflexivity. }
-    specialize (L body (fs ++ [b]) tail IH G).
+        rewrite <- app_assoc, (Hx (o' ++ tail0)), IHl. reflexivity. }
+    specialize (L body (fs ++ [b]) tail IH).
     destruct (exec_list cc body (state_of (fs ++ [b]))) as [[s2 o] r]. cbn [fst snd] in *.
     rewrite L. reflexivity.
 Qed.
 
 Theorem program_meets_spec cc prog :
-  guard_prog cc prog = true ->
+  cfg_sane cc = true ->
   spec_ok_ctx cc prog (snd (fst (run_program cc prog))) (fst (fst (run_program cc prog)))
               (snd (run_program cc prog)) = true.
 Proof.
-  unfold guard_prog, run_program, spec_ok_ctx. intros G. apply andb_true_iff in G as [S G].
+  unfold run_program, spec_ok_ctx. intros S.
   pose proof (program_restores cc prog c0) as R.
-  assert (L : forall l tail, forallb (guard_stmt cc) l = true ->
+  assert (L : forall l tail,
              judge_list cc [] l (snd (fst (exec_list cc l c0)) ++ tail)
              = (true, tail, snd (exec_list cc l c0))).
-  { induction l as [|x l IHl]; intros tail GL; [reflexivity|].
-    cbn [forallb] in GL. apply andb_true_iff in GL as [Gx GL].
+  { induction l as [|x l IHl]; intros tail; [reflexivity|].
     cbn [exec_list judge_list].
     pose proof (stacks_restored cc x c0) as Rx.
     pose proof (exec_judge cc S x []) as Hx. change (state_of []) with c0 in Hx.
     destruct (exec cc x c0) as [[s' o] r]. cbn [fst snd] in Rx, Hx. subst s'.
     destruct r.
-    - cbn [fst snd]. rewrite (Hx tail Gx). reflexivity.
-    - specialize (IHl tail GL).
+    - cbn [fst snd]. rewrite (Hx tail). reflexivity.
+    - specialize (IHl tail).
       destruct (exec_list cc l c0) as [[s'' o'] r']. cbn [fst snd] in *.
-      rewrite <- app_assoc, (Hx (o' ++ tail) Gx), IHl. reflexivity. }
-  specialize (L prog [] G). rewrite app_nil_r in L.
+      rewrite <- app_assoc, (Hx (o' ++ tail)), IHl. reflexivity. }
+  specialize (L prog []). rewrite app_nil_r in L.
   destruct (exec_list cc prog c0) as [[st calls] r]. cbn [fst snd] in *. subst st.
   rewrite L. rewrite eqb_reflx. reflexivity.
 Qed.
@@ -283,38 +273,39 @@ Proof.
 Qed.
 
 Theorem sudo_wraps_prefixed cc fs cmd u e :
-  cfg_sane cc = true -> sudo_env_given cc e = true ->
+  cfg_sane cc = true ->
   truthy (want (cc_run cc) (only_env e) Dry) = false ->
   snd (fst (run_program cc (nest fs [SSudo cmd u e])))
   = [Some (sudo_wrapped cc u e (composed fs cmd), want (cc_run cc) (only_env e) Shell,
            generate_env (want (cc_run cc) (only_env e) Env)
                         (want (cc_run cc) (only_env e) ReplaceEnv) (cc_parent cc))].
 Proof.
-  unfold cfg_sane. intros S G D. unfold run_program. change c0 with (state_of []).
+  unfold cfg_sane. intros S D. unfold run_program. change c0 with (state_of []).
   rewrite nest_calls. cbn [app exec_list exec fst snd]. unfold do_sudo.
-  rewrite prefix_composed, (sudo_string cc u e _ G).
+  rewrite prefix_composed, (sudo_string cc u e _).
   change (env_kwargs e) with (only_env e).
   rewrite started_value; [reflexivity | | exact D].
   rewrite rejected_only_env. destruct (rejected (cc_run cc) no_kw); [discriminate | reflexivity].
 Qed.
 
-(** * F-C15 *)
+(** * Historical: before fix c2a3b37 [_sudo] consulted the env KEYWORD only (F-C15) *)
+Definition sudo_command_before_fix (prompt : string) (user : oval) (env_kw : option oval)
+           (prefixed : string) : string :=
+  sudo_command prompt user (match env_kw with Some e => e | None => ODict [] end) prefixed.
+
 Definition cfg_env_A : config :=
   mkCfg (fun o => match o with Env => Some (ODict [("A", "x")]) | _ => None end) ONone.
 
-Theorem sudo_refuted :
-  exists cc prog,
+Theorem sudo_before_fix_refuted :
+  exists cc u e prefixed,
     cfg_sane cc = true /\
-    (* the configured variable reaches the child ... *)
-    (exists cmd sh e, snd (fst (run_program cc prog)) = [Some (cmd, sh, e)] /\
-                      lookup_env "A" e = Some "x"%string /\
-                      (* ... but sudo is not told to preserve it *)
-                      cmd = "sudo -S -p 'P:' whoami"%string) /\
-    spec_ok_ctx cc prog (snd (fst (run_program cc prog))) (fst (fst (run_program cc prog)))
-                (snd (run_program cc prog)) = false.
+    (* A reaches the child ... *)
+    want (cc_run cc) (only_env e) Env = ODict [("A", "x")] /\
+    (* ... but was not preserved *)
+    sudo_command_before_fix (cc_prompt cc) (match u with Some x => x | None => cc_user cc end) e prefixed
+    = "sudo -S -p 'P:' whoami"%string /\
+    sudo_wrapped cc u e prefixed = "sudo -S -p 'P:' --preserve-env='A' whoami"%string.
 Proof.
-  exists (mkCC cfg_env_A "P:" ONone []), [SSudo "whoami" None None].
-  split; [reflexivity|]. split.
-  - eexists _, _, _. vm_compute. repeat split; reflexivity.
-  - vm_compute. reflexivity.
+  exists (mkCC cfg_env_A "P:" ONone []), None, None, "whoami"%string.
+  vm_compute. repeat split; reflexivity.
 Qed.
